@@ -818,6 +818,9 @@ class Run:
             if isinstance(bits, int):
                 return ("set", frozenset(chr(i) for i in range(64) if bits >> i & 1))
         fs = tuple((f["name"], self.eval(f["e"], env)) for f in e["fields"])
+        if e.get("rest") is not None:
+            # functional update `S { a: x, ..base }`: which fields are replaced, by what, and from which base
+            return ("unk", "%s{%s,..%s}" % (name, ",".join("%s:%s" % (n, showv(v)) for n, v in sorted(fs)), showv(self.eval(e["rest"], env))))
         order = STRUCT_FIELDS.get(name)
         if order and not e.get("rest") and sorted(order) == sorted(n for n, _ in fs):
             d = dict(fs)
